@@ -200,6 +200,21 @@ def check_threshold_optimizer(case):
         if np.abs(pb - p[rows]).max() > 1e-12:
             k = int(np.argmax(np.abs(pb - p[rows])))
             raise PropertyViolation(f"ThresholdOptimizer: row {rows[k]} (tuple {tuple(table[rows[k]])}) gets P(1)={pb[k]} when predicted in the batch of rows {rows} but {p[rows[k]]} in the full table: the rule applied depends on the rest of the batch")
+    # tuples not seen at fit time equal no fit-time tuple, so they are all treated alike - in particular a tuple that
+    # merely *extends* a seen tuple ('x' -> 'xz', 'x,', 'x\\') must not be given that tuple's rule
+    seen = sorted(part)
+    base = list(seen[case.get("pick", 0) % len(seen)])
+    levels = sorted(set(scores))
+    cands = [base[:-1] + [base[-1] + suf] for suf in ("z", ",", "\\", " ")] + [[c + "q" for c in base]]
+    unseen = [u for u in cands if tuple(u) not in part]
+    ref_u = ["\u00e9q"] * ncol
+    if unseen and tuple(ref_u) not in part:
+        Xu = np.asarray(levels, dtype=float).reshape(-1, 1)
+        p_ref = to._pmf_predict(Xu, sensitive_features=_wrap_table(case["kind2"], [ref_u] * len(levels)))[:, 1]
+        for u in unseen:
+            p_u = to._pmf_predict(Xu, sensitive_features=_wrap_table(case["kind2"], [u] * len(levels)))[:, 1]
+            if np.abs(p_u - p_ref).max() > 1e-12:
+                raise PropertyViolation(f"ThresholdOptimizer: the unseen tuple {tuple(u)} (an extension of the fit-time tuple {tuple(base)}) is predicted {p_u.tolist()} while another unseen tuple gets {p_ref.tolist()}: it was matched to a fit-time group it does not equal")
     which = {"demographic_parity": ["sel"], "true_positive_rate_parity": ["tpr"], "false_positive_rate_parity": ["fpr"],
              "equalized_odds": ["tpr", "fpr"]}[case["constraint"]]
     for m in which:
@@ -397,7 +412,7 @@ def _to_cases(draw):
             "grid_size": draw(st.sampled_from([10, 1000])), "flip": draw(st.booleans()),
             "perm": list(draw(st.permutations(range(n)))),
             "subset": draw(st.lists(st.integers(0, 40), min_size=0, max_size=5)),
-            "tile": draw(st.integers(0, 11)) == 0}
+            "tile": draw(st.integers(0, 11)) == 0, "pick": draw(st.integers(0, 10))}
 
 
 @st.composite
